@@ -85,7 +85,7 @@ CHECKS = {
     ),
     "C13": (
         "runtime history monitor: per-object no-loss oracle from recorded intents, every reconciliation order",
-        "2-3 concurrent transactions (also criss-cross) with random edits are committed from the same operation and reconciled by merge_operations in every permutation and by load_at_head; per object, from each side's own intent: untouched commits stay, hidden stays hidden, created commits visible as themselves or a same-change successor, bookmarks/tags/workspaces take the changing side's value (following the other side's rewrite/abandon in the decidable cases), identical changes kept, different changes conflict per the C12 reference.",
+        "2-3 concurrent transactions (also criss-cross) with random edits are committed from the same operation and reconciled by merge_operations in every permutation and by load_at_head; per object, from each side's own intent: untouched commits stay, hidden stays hidden, created commits visible as themselves or a same-change successor, local bookmarks, tags, remote-tracking bookmarks and workspaces take the changing side's value (following the other side's rewrite/abandon in the decidable cases), identical changes kept, different changes conflict per the C12 reference.",
         "Rewrite-interaction clauses are enforced only in the cases the engine can decide soundly (others counted as skipped). Several genuine defects recorded as known findings (order-dependent divergent rewrites, cross-reparenting panic, same-millisecond duplicate commit), one repaired.",
     ),
     "C14": (
@@ -150,12 +150,12 @@ CHECKS = {
     ),
     "C24": (
         "runtime monitor: disk == tree, snapshot identity and path independence over checkout sequences",
-        "2-6 checkouts per workspace between generated trees (files, executables, symlinks, file<->directory replacements, 40% conflicted merges) under every eol x exec-bit x marker-style policy: disk equals the tree's leaves (through an own EOL reference), a snapshot from a fresh load returns identical tree ids (also after forcing re-reads) and writes nothing, and the disk equals a from-scratch checkout of the same tree.",
+        "2-6 checkouts per workspace (full and sparse) between generated trees (files, executables, symlinks, file<->directory replacements, 40% conflicted merges, repeats of a conflicted tree with only the conflict labels changed) under every eol x exec-bit x marker-style policy: disk equals the tree's leaves (through an own EOL reference), a snapshot from a fresh load returns identical tree ids (also after forcing re-reads) and writes nothing, and the disk equals a from-scratch checkout of the same tree.",
         "Conflicted trees are produced by MergedTree::merge (snapshot re-runs resolve()); exec bit not compared under exec-bit-change=ignore; conflict file contents are C06's business.",
     ),
     "C25": (
         "runtime monitor: planted foreign files and outside directories must be byte-identical after checkout",
-        "Before a checkout from A to B, untracked files and directories, ignored files, local edits of tracked files untouched by the update, symlinks to outside files and symlinked directories pointing outside the workspace are planted where B wants files/directories; every planted entry and the outside directory must be unchanged, blocked paths are skipped (stats.skipped_files) not overwritten, checkout returns Ok.",
+        "Before a checkout from A to B, untracked files and directories, ignored files, local edits of tracked files untouched by the update (including hand resolutions of conflicted files whose conflict is the same in A and B), symlinks to outside files and symlinked directories pointing outside the workspace are planted where B wants files/directories; every planted entry and the outside directory must be unchanged, blocked paths are skipped (stats.skipped_files) not overwritten, checkout returns Ok.",
         "strace audit of thorough tier not built. Known finding: unsorted placeholder states (debug assertion) when a tracked directory was replaced on disk.",
     ),
     "C26": (
